@@ -111,4 +111,20 @@ def sparseDiagline (emb : List (List V)) (eps : Rat) (mv : Bool) : List Nat :=
   if mv then LineDist.diaglineMV (sparseMatrix emb eps) (missingMask emb) emb.length
   else LineDist.diagline (sparseMatrix emb eps) emb.length
 
+/-! ### round 4: `RecurrencePlot.diagline_dist` as the method computes it — `2 * diagline`, where the
+kernel (`Model/LineDist.lean`, property C08) scans the sub-diagonals `I > j` only ("Function just
+runs over the upper triangular matrix").  On an asymmetric matrix (fixed local recurrence rate)
+this is twice the line count of the lower triangle, not the count over all diagonals. -/
+
+def diaglineDist (R : List (List Bool)) (N : Nat) (mask : Option (List Bool)) : List Nat :=
+  (match mask with
+   | none => LineDist.diagline R N
+   | some M => LineDist.diaglineMV R M N).map (2 * ·)
+
+/-- line counts over *all* off-main diagonals: those of the lower triangle of `R` and those of the
+lower triangle of `Rᵀ` -/
+def diaglineAll (R : List (List Bool)) (N : Nat) : List Nat :=
+  List.zipWith (· + ·) (LineDist.diagline R N)
+    (LineDist.diagline (tab N N fun i j => LineDist.Mat.at R j i) N)
+
 end Pyunicorn.Recurrence
